@@ -241,8 +241,103 @@ def mixin_order_cases(rng):
                oracle_fail=fail, sig="dfs|directed|mixin-order")
 
 
+@_dc.dataclass(frozen=True)
+class C05Triple(zoo.Expr):
+    """child fields named like the identifiers a generated accessor body may use for its loop variables / parameters,
+    declared AFTER a tuple-valued child field"""
+    anns: tuple[zoo.Expr, ...] = ()
+    s: zoo.Expr | None = None
+    o: zoo.Expr | None = None
+    i: zoo.Expr | None = None
+    more: tuple[zoo.Expr, ...] = ()
+    sort_keys: zoo.Expr | None = None
+    f: zoo.Expr | None = None
+
+
+zoo.CHILD_FIELDS[C05Triple] = [("anns", True), ("s", False), ("o", False), ("i", False), ("more", True), ("sort_keys", False), ("f", False)]
+
+
+def _post(n):
+    for name, coll, ns in zoo.kid_lists(n):
+        for i, c in enumerate(ns):
+            yield from _post(c)
+            yield (c, n, name, i if coll else None)
+
+
+def _levels(n):
+    level = [(c, p, f, i) for (c, p, f, i) in ((c, n, name, (i if coll else None)) for name, coll, ns in zoo.kid_lists(n) for i, c in enumerate(ns))]
+    while level:
+        yield from level
+        level = [(c, p, name, (i if coll else None)) for (p, _pp, _f, _i) in level for name, coll, ns in zoo.kid_lists(p) for i, c in enumerate(ns)]
+
+
+def loop_variable_names_cases(rng):
+    """traversals of a class whose child fields are called `o`, `i`, `sort_keys`, `f`: every yielded (node, parent, field,
+    index) is the position the harness' own recursion over the dataclass fields finds, in pre- / post- / level order"""
+    mk = lambda v: zoo.Leaf(v=v)  # noqa
+    for variant in range(6):
+        anns = tuple(mk(10 + k) for k in range(variant % 3))
+        more = tuple(zoo.Un(mk(20 + k)) for k in range((variant + 1) % 3))
+        t = C05Triple(anns=anns, s=mk(1), o=None if variant == 4 else zoo.Un(mk(2)), i=None if variant == 5 else mk(3), more=more,
+                      sort_keys=mk(4) if variant % 2 else None, f=mk(5))
+        root = zoo.Tup((t, C05Triple(anns=(mk(7),), o=mk(8)), mk(6)))
+        key = lambda tup: (id(tup[0]), id(tup[1]), tup[2], tup[3])  # noqa
+        real = lambda it: [(id(x.node), id(x.parent), x.field.name, x.findex) for x in it]  # noqa
+        fail = None
+        for what, got, want in (("dfs", real(root.dfs()), [key(p) for p in zoo.positions(root)]),
+                                ("dfs(bottom_up)", real(root.dfs(bottom_up=True)), [key(p) for p in _post(root)]),
+                                ("bfs", real(root.bfs()), [key(p) for p in _levels(root)]),
+                                ("get_child_nodes_with_field", [(id(c), id(t), fl.name, ix) for c, fl, ix in t.get_child_nodes_with_field()],
+                                 [key(p) for p in zoo.positions(t) if p[1] is t]),
+                                ("get_child_nodes", [id(c) for c in t.get_child_nodes()], [id(p[0]) for p in zoo.positions(t) if p[1] is t])):
+            if got != want:
+                fail = f"{what} yields {len(got)} positions that differ from the {len(want)} stored ones (first difference at #{next((k for k, (a, b) in enumerate(zip(got, want)) if a != b), min(len(got), len(want)))})"
+                break
+        yield Case("directed:loop-variable-names", None, None, True, f"C05Triple(anns={len(anns)}, s, o, i, more={len(more)}, sort_keys, f) variant {variant}",
+                   oracle_fail=fail, sig="dfs|directed|loop-variable-names")
+
+
+def consumer_process_cases(rng):
+    """trees are built and pickled here; a FRESH process that never constructs nodes of these classes unpickles and
+    traverses them (the first use of each class's generated accessors comes from a traversal, not from a constructor), with
+    each kind of traversal coming first once"""
+    import json
+    import os
+    import pickle
+    import subprocess
+    import sys
+    import zoo_c05w as W
+    from run import VERIF, REPO
+    nm = lambda s: W.W05Name(s)  # noqa
+    trees = []
+    for k in range(4):
+        calls = tuple(W.W05Call(nm(f"f{k}{j}"), tuple(nm(f"a{k}{j}{m}") for m in range(rng.randint(2, 4))), nm("rest") if j % 2 == 0 else None)
+                      for j in range(rng.randint(2, 3)))
+        trees.append(W.W05Block(calls, last=W.W05Call(nm("g"), (calls[0], nm("y")))))
+    work = VERIF / ".work"
+    work.mkdir(exist_ok=True)
+    f = work / f"c05-trees-{os.getpid()}.pkl"
+    try:
+        f.write_bytes(pickle.dumps(trees))
+        for first in ("dfs", "post", "bfs", "gather"):
+            env = dict(os.environ, PYTHONPATH=f"{VERIF / 'harness'}:{REPO / 'src'}")
+            p = subprocess.run([sys.executable, str(VERIF / "harness" / "c05_worker.py"), str(f), first], env=env,
+                               capture_output=True, text=True, timeout=120)
+            if p.returncode != 0:
+                fail = "consumer process failed: " + p.stderr[-300:]
+            else:
+                fails = json.loads(p.stdout.strip().splitlines()[-1])
+                fail = fails[0] if fails else None
+            yield Case("directed:consumer-process", None, None, True, f"4 pickled Block/Call/Name trees traversed in a fresh process, {first} first",
+                       oracle_fail=fail, sig="dfs|directed|consumer-process")
+    finally:
+        f.unlink(missing_ok=True)
+
+
 def cases(rng: random.Random, tier: str):
     yield from mixin_order_cases(rng)
+    yield from consumer_process_cases(rng)
+    yield from loop_variable_names_cases(rng)
     yield from deep_chain_cases(rng)
     n_trees = 250 if tier == "quick" else 6000
     for k in range(n_trees):
